@@ -9,6 +9,9 @@
 import Tranp.Lemmas.Quotation
 import Tranp.Props.C15
 import Tranp.Lemmas.CacheShape
+import Tranp.Lemmas.GrammarFirst
+import Tranp.Lemmas.QuotationShape
+import Tranp.Generated.GrammarFirst
 
 namespace Tranp.C16
 open Tranp Tranp.Lark Tranp.Quote Tranp.Hull
@@ -277,5 +280,56 @@ theorem lark_options :
     (["propagate_positions".toList, "True".toList] ∈ LarkCache.larkKwargs.map (fun kv => [kv.1, kv.2]))
     ∧ (["postlex".toList, "PythonIndenter()".toList] ∈ LarkCache.larkKwargs.map (fun kv => [kv.1, kv.2])) := by
   constructor <;> simp [LarkCache.larkKwargs]
+
+/-! ### which token a tree's span begins and ends with (grammar and tables generated from lark's loaded rule set) -/
+
+open Tranp.Gram Tranp.Generated in
+/-- The generated NULLABLE / FIRST tables are closed under every rule of the generated grammar (checked here, not trusted) … -/
+theorem first_tables_ok : GrammarFirst.tables.ok GrammarFirst.grammar = true := by decide +kernel
+
+open Tranp.Gram Tranp.Generated in
+/-- … and so are the tables of the reversed grammar (LAST). -/
+theorem last_tables_ok : GrammarFirst.tablesRev.ok GrammarFirst.grammar.rev = true := by decide +kernel
+
+open Tranp.Gram Tranp.Generated in
+/-- Consequence of the interface hypothesis (a tree named `n` is the result of a derivation by a rule named `n`, and its span
+    begins at its first consumed token): the span of a tree begins at a token whose type is in the generated FIRST set of its
+    name — the clause `span-begin-not-first-token` of the span search. -/
+theorem span_begins_at_first_token (r : Rule) (cs : List Deriv) (hv : valid GrammarFirst.grammar (.node r cs) = true)
+    (t : Nat) (rest : List Nat) (hy : yield (.node r cs) = t :: rest) : t ∈ GrammarFirst.tables.nameFirstOf r.name :=
+  first_of_named _ _ first_tables_ok r cs hv t rest hy
+
+open Tranp.Gram Tranp.Generated in
+/-- … and ends at a token whose type is in the generated LAST set of its name (`span-end-not-last-token`). -/
+theorem span_ends_at_last_token (r : Rule) (cs : List Deriv) (hv : valid GrammarFirst.grammar (.node r cs) = true)
+    (t : Nat) (front : List Nat) (hy : yield (.node r cs) = front ++ [t]) : t ∈ GrammarFirst.tablesRev.nameFirstOf r.name :=
+  last_of_named _ _ last_tables_ok r cs hv t front hy
+
+open Tranp.Gram Tranp.Generated in
+/-- non-vacuity: the grammar has rules and terminals, and a one-rule derivation over it is valid -/
+example : GrammarFirst.grammar.rules.length > 100 ∧ GrammarFirst.terms.length > 50
+    ∧ GrammarFirst.grammar.rules.any (fun r => valid GrammarFirst.grammar (.node r (r.rhs.map .leaf)) && !r.rhs.isEmpty) = true := by
+  decide +kernel
+
+/-! ### the tie: the arithmetic and the templates of `Quotation` / `ErrorCollector` as read from the source on every run -/
+
+open Tranp.Generated in
+/-- `ErrorRender.Quotation` as the translator reads it — binary `readlines()`, the `.replace` chain of `__load_line`, the range
+    expressions of `__cause_range`, the fill characters and counts of `__build_line_mark`, the line-number expression and the
+    four f-string templates of `build` — evaluated the way Python evaluates them, is the model's `quotationBuild` (to which
+    `mark`, `mark_line`, `quotation` apply), for every file content and span. -/
+theorem quotation_shape (fp content : Str) (s : Span) :
+    QShape.quotationBuildBy QuotationShape.loadLineReplaces QuotationShape.causeRangeBegin QuotationShape.causeRangeEnd
+      QuotationShape.lineMark QuotationShape.lineNo QuotationShape.buildLines fp content s = quotationBuild fp content s :=
+  QShape.quotationBuild_generated fp content s
+
+open Tranp.Generated in
+/-- The same for the self-hosted parser's `ErrorCollector` (`_cause_token`, `_cause_line`, `_cause_token_range`,
+    `_cause_line_mark`, `_quotation_lines`): the generated shapes evaluate to the model's `collectorLines` (to which `collector`
+    applies). -/
+theorem collector_shape (source : Str) (tokens : List Span) (steps : Int) :
+    QShape.collectorLinesBy QuotationShape.collectorRangeBegin QuotationShape.collectorRangeEnd QuotationShape.collectorMark
+      QuotationShape.collectorLineNo QuotationShape.collectorLines source tokens steps = collectorLines source tokens steps :=
+  QShape.collectorLines_generated source tokens steps
 
 end Tranp.C16
